@@ -25,7 +25,7 @@ ASSUMPTIONS = ['"conforming per its documentation" is the contract the fake usb1
 REAL_VS_STUB = {'real': ['adb_shell.transport.usb_transport.UsbTransport', 'adb_shell.adb_device.AdbDevice / AdbDeviceUsb'],
                 'stub': ['usb1 / libusb (simadb.fakeusb1)', 'adbd or raw peer', 'clock']}
 EXPECT_PROBES = {'all': ['c20_session', 'c20_script', 'c20_err_in_read', 'c20_err_in_write', 'c20_err_in_close', 'c20_use_after_close', 'c20_by_serial', 'c20_by_port', 'c20_timeout_none', 'c20_kernel_driver']}
-OWN = ('wrong-interface', 'wrong-endpoint', 'wrong-length', 'read-too-long', 'bytes-differ', 'timeout-ms', 'bare-usb-error', 'crash', 'after-close', 'close-not-idempotent',
+OWN = ('usb-error-swallowed', 'wrong-interface', 'wrong-endpoint', 'wrong-length', 'read-too-long', 'bytes-differ', 'timeout-ms', 'bare-usb-error', 'crash', 'after-close', 'close-not-idempotent',
        'wrong-result', 'differs-from-memory', 'hang', 'no-termination', 'wrong-device', 'unexpected-exception', 'timeout-instead-of-result', 'write-lost', 'wire-format')
 ERRS = ['io', 'nodevice', 'timeout', 'pipe', 'overflow', 'busy']
 USB_EXC = ('UsbReadFailedError', 'UsbWriteFailedError')
@@ -104,7 +104,9 @@ def generate(seed, tier):
             ops += [{'op': 't_connect', 'timeout': None}, {'op': 't_read', 'n': 100, 'timeout': 3.0}, {'op': 't_close'}]
         usb['short'] = g.chance(0.4)
         if g.chance(0.3):
-            usb['named_faults'] = [{'on': g.pick(['release', 'close']), 'nth': 0, 'err': g.pick(ERRS)}]
+            usb['named_faults'] = [{'on': g.pick(['release', 'close', 'bulkRead', 'bulkWrite']), 'nth': g.int(0, 2), 'err': g.pick(ERRS)}]
+            if usb['named_faults'][0]['on'] in ('release', 'close'):
+                usb['named_faults'][0]['nth'] = 0
         scn = {'api': 'sync', 'transport': 'usb', 'usb': usb, 'device': {'raw_peer': True, 'script': chunks}, 'actors': [ops],
                'config': {'frag': g.pick(['whole', 'mixed', 'uniform']), 'call_cost': 1e-5, 'shadow_store': False, 'short': 'cap' if usb['short'] else None, 'short_zero_raises': True}, 'object': {'banner': 'x'}}
         return {'seed': seed, 'scn': scn, 'family': 'script'}
@@ -223,8 +225,7 @@ def eval_session(case, tapes, out):
         if name in ('bulkRead', 'bulkWrite'):
             want = 'UsbReadFailedError' if name == 'bulkRead' else 'UsbWriteFailedError'
             if not bad:
-                # tolerated only if the value is right (cannot happen for a transfer the operation needed)
-                probs += [p for p in O.check_session(run, scn) if p[0] == 'wrong-result']
+                probs.append(O.P('usb-error-swallowed', 'libusb %s injected into %s #%d did not surface as %s: every call returned normally' % (err, name, k, want)))
             else:
                 r = bad[0]
                 chain = exc_chain(r)
@@ -316,6 +317,8 @@ def eval_script(case, tapes, out):
                     mine = cand
                     break
             if mine is not None:
+                if isinstance(mine[4], str) and r['ok']:
+                    probs.append(O.P('usb-error-swallowed', 'op#%d %s: the backend raised %s but the call returned %r' % (i, k, mine[4], (r['value'][:8] if isinstance(r['value'], (bytes, bytearray)) else r['value']))))
                 if mine[3] != want_ms:
                     probs.append(O.P('timeout-ms', 'op#%d %s(timeout=%r): libusb timeout %r ms, expected %d ms (default %r s)' % (i, k, t, mine[3], want_ms, default_tt)))
                 want_len = op['n'] if k == 't_read' else op['content']['size']
